@@ -20,7 +20,7 @@ from pyvc import pyd
 from pyvc.check import Check, Canary, Lemma
 from pyvc.loader import Repo, Unsupported
 from checks import stdio as ST
-from checks import C02, C05, C11, C13
+from checks import C02, C05, C11, C12, C13
 
 STDIO = ST.STDIO
 HTTP = C11.HTTP
@@ -109,12 +109,13 @@ class C15(Check):
     trusted = ["derived lemma over per-carrier contracts, not a differential run of the four carriers",
                "inherits the environment contracts and known findings of C05, C11, C12, C13 (lost/dropped encodings on "
                "the HTTP carriers are listed there)",
-               "legacy SSE carrier: message events are JSON-parsed and routed by _handle_message_event, which is not "
-               "under contract (exactly-once race undecided, see C12)"]
+               "legacy SSE carrier: its framing (_process_sse_stream) and hand-over (_send_message_via_http) contracts of C12 are "
+               "re-verified here; _handle_message_event is used through its guarantee G (see C12)"]
 
     def install(self, ctx):
         ST.install(ctx)
         C05.CHECK.install(ctx)
+        C12.CHECK.install(ctx)
         C11.CHECK.install(ctx)
         ctx.env_class(C13.T_HOLDER)
         ctx.extern_handlers["os.environ.get"] = lambda I, a, k, n: (a[1] if len(a) > 1 else V.NONE)
@@ -123,17 +124,21 @@ class C15(Check):
         m = {}
         m.update(C13.CHECK.modular())
         m.update(C05.CHECK.modular())
+        m.update(C12.CHECK.modular())
         m.update(C11.CHECK.modular())
         return m
 
     def contracts(self):
         return ([C05.StdoutReader(), C13.RouteMessage()] + [C02.ParseEmitted(k) for k in ("request", "notification", "response", "error")]
-                + [C11.RouteResponse(), C11.SseText("canonical_lf"), C11.SseText("two_events"), C11.SseText("canonical_crlf")])
+                + [C11.RouteResponse(), C11.SseText("canonical_lf"), C11.SseText("two_events"), C11.SseText("canonical_crlf")]
+                # legacy SSE carrier: the event-stream framing and the POST-reply / event-stream hand-over
+                + [C12.ProcessStream(), C12.SendRequest("event_then_ack"), C12.SendRequest("ack_then_event"), C12.SendRequest("body_200")])
 
     def loop_invariants(self):
         inv = {}
         inv.update(C05.CHECK.loop_invariants())
         inv.update(C13.CHECK.loop_invariants())
+        inv.update(C12.CHECK.loop_invariants())
         inv.update(C11.CHECK.loop_invariants())
         return inv
 
